@@ -146,6 +146,23 @@ def correspond(ctx):
     def report(sig, detail, meta):
         dis.append(Disagreement('c16.variant', sig, detail, meta, True))
 
+    # ------------------------------------------------------------ module-level wrappers: parameter order
+    import inspect
+    from pybaselines import Baseline as _B
+    for name, e in reg1.items():
+        try:
+            fn = getattr(importlib.import_module('pybaselines.' + e['module']), name)
+        except Exception:      # noqa: BLE001
+            continue
+        fo = [pn for pn in inspect.signature(fn).parameters if pn not in ('x_data', 'kwargs')]
+        mo = [pn for pn in inspect.signature(getattr(_B, name)).parameters if pn not in ('self', 'kwargs')]
+        ctx.case(('signature-order', name), nontrivial=True)
+        ctx.count('signature-order')
+        if name != 'interp_pts' and fo != mo and sorted(fo) == sorted(mo):      # interp_pts' function takes x_data first, by design
+            # the wrapper forwards the arguments that precede x_data by POSITION: another order sends keyword arguments to the wrong parameters
+            k = next(i for i, (a, b) in enumerate(zip(fo, mo)) if a != b)
+            report(f'1d:{name}:signature-order', f'{e["module"]}.{name} lists its parameters as {fo[:k + 2]}... but the method as {mo[:k + 2]}...; the wrapper forwards '
+                   f'positionally, so keyword arguments reach the wrong parameters', {'method': name, 'variant': 'signature-order'})
     # ------------------------------------------------------------ 1-D
     only = getattr(ctx, 'only_method', None)
     for name, e in reg1.items():
@@ -288,6 +305,16 @@ def correspond(ctx):
             if name != 'interp_pts':
                 checks.append(('functional-keyword-data', lambda: getattr(importlib.import_module('pybaselines.' + e['module']), name)(data=d0, x_data=x, **kw), rb, rp))
             if name != 'interp_pts':
+                # every parameter passed explicitly BY KEYWORD with its default value (a wrapper that forwards by position must
+                # keep the method's parameter order), plus the call's own keyword arguments
+                kw_all = {pn: pv for pn, pv in e['params'].items() if pv is not None and pn not in ('weights', 'alpha', 'x_data', 'method_kwargs', 'pad_kwargs',
+                                                                                                   'window_kwargs', 'kwargs')}
+                kw_all.update(kw)
+                try:
+                    wba, wpa = call1d(name, x, d0, kw_all)
+                    checks.append(('functional-all-keywords', lambda: call1d(name, x, d0, kw_all, iface='func', module=e['module']), wba, wpa))
+                except Exception:
+                    pass
                 # the same equivalence when x is not sorted (rotated: the sorting permutation is not its own inverse)
                 for plabel, perm in (('rotated', np.roll(np.arange(n), n // 3)), ('shuffled', rng.permutation(n))):
                     xu, du = x[perm], d0[..., perm]
